@@ -524,6 +524,9 @@ def _guard(iv):
 class SymBool:
     __slots__ = ("z",)
 
+    def __deepcopy__(self, memo): return self      # immutable proxy
+    def __copy__(self): return self
+
     def __init__(self, z):
         self.z = z
 
@@ -554,6 +557,9 @@ class SymBool:
 
 class SymInt:
     __slots__ = ("z", "iv")
+
+    def __deepcopy__(self, memo): return self      # immutable proxy
+    def __copy__(self): return self
 
     def __init__(self, z, iv=(-LIM + 1, LIM - 1)):
         self.z = z
@@ -739,6 +745,9 @@ class Dec:
     """Atom of a SymStr: canonical decimal rendering of a non-negative SymInt."""
     __slots__ = ("v",)
 
+    def __deepcopy__(self, memo): return self      # immutable proxy
+    def __copy__(self): return self
+
     def __init__(self, v):
         if v.iv[0] < 0 and not Ctx.cur.fork(v.z >= 0):
             raise Unsupported("decimal rendering of a negative symbolic int")
@@ -785,6 +794,9 @@ class DigitChar:
 class SymStr:
     """Text = concrete chunks + numeral atoms; every maximal digit run is wholly concrete or one atom."""
     __slots__ = ("parts",)
+
+    def __deepcopy__(self, memo): return self      # immutable proxy
+    def __copy__(self): return self
 
     def __init__(self, parts):
         norm = []
